@@ -613,7 +613,11 @@ class PteraTransformer(NodeTransformer):
                 wrapped_body.append(first)
                 body = body[1:]
 
-        new_body += self.visit_body(node.body)
+        stmts = list(node.body)
+        if not isinstance(stmts[-1], ast.Return):
+            # Falling off the end returns None: report it like any return
+            stmts.append(ast.Return(value=None))
+        new_body += self.visit_body(stmts)
         new_body = self.delimit(
             new_body,
             ["#enter"],
